@@ -1,0 +1,196 @@
+//go:build verif
+
+// Contracts for the AWS cloud provider. Compiled only with -tags verif; nothing but //@
+// specification comments. Read by /verif/engine (govc).
+
+package aws
+
+//@ import v1 "k8s.io/api/core/v1"
+//@ import autoscaling "github.com/aws/aws-sdk-go/service/autoscaling"
+//@ import ec2 "github.com/aws/aws-sdk-go/service/ec2"
+//@ import cloudprovider "github.com/atlassian/escalator/pkg/cloudprovider"
+
+// ---------------------------------------------------------------- SDK helpers (assumed)
+//@ assume func github.com/aws/aws-sdk-go/aws.String(v) (p)
+//@   ensures p != nil && fresh(p) && deref(p) == v
+//@ assume func github.com/aws/aws-sdk-go/aws.Int64(v) (p)
+//@   ensures p != nil && fresh(p) && deref(p) == v
+//@ assume func github.com/aws/aws-sdk-go/aws.Bool(v) (p)
+//@   ensures p != nil && fresh(p) && deref(p) == v
+//@ assume func github.com/aws/aws-sdk-go/aws.Int64Value(p) (v)
+//@   pure
+//@   ensures p != nil ==> v == deref(p)
+//@   ensures p == nil ==> v == 0
+//@ assume func github.com/aws/aws-sdk-go/aws.StringValue(p) (v)
+//@   pure
+//@   ensures p != nil ==> v == deref(p)
+//@   ensures p == nil ==> v == ""
+
+// ---------------------------------------------------------------- AWS write calls (assumed; each appends one event)
+// A_SETDESIRED: Jname = ASG name, Jnum = desired capacity asked for
+//@ iface github.com/aws/aws-sdk-go/service/autoscaling/autoscalingiface.AutoScalingAPI.SetDesiredCapacity(api, input) (out, err)
+//@   requires input != nil && input.AutoScalingGroupName != nil && input.DesiredCapacity != nil
+//@   modifies Jlen, Jkind, Jname, Jnum, Jok
+//@   ensures Jlen == old(Jlen) + 1 && Jkind == old(Jkind)[old(Jlen) := A_SETDESIRED] && Jname == old(Jname)[old(Jlen) := deref(input.AutoScalingGroupName)] && Jnum == old(Jnum)[old(Jlen) := deref(input.DesiredCapacity)] && Jok == old(Jok)[old(Jlen) := err == nil]
+// A_TERMASG: Jname = instance id, Jnum = 1 iff desired capacity is decremented. A successful answer carries an activity description.
+//@ iface github.com/aws/aws-sdk-go/service/autoscaling/autoscalingiface.AutoScalingAPI.TerminateInstanceInAutoScalingGroup(api, input) (out, err)
+//@   requires input != nil && input.InstanceId != nil && input.ShouldDecrementDesiredCapacity != nil
+//@   modifies Jlen, Jkind, Jname, Jnum, Jok
+//@   ensures Jlen == old(Jlen) + 1 && Jkind == old(Jkind)[old(Jlen) := A_TERMASG] && Jname == old(Jname)[old(Jlen) := deref(input.InstanceId)] && Jnum == old(Jnum)[old(Jlen) := (deref(input.ShouldDecrementDesiredCapacity) ? 1 : 0)] && Jok == old(Jok)[old(Jlen) := err == nil]
+//@   ensures err == nil ==> out != nil && out.Activity != nil && out.Activity.Description != nil
+
+// ---------------------------------------------------------------- aws.go: sizes
+//@ spec asgOK(n *NodeGroup) bool = n != nil && n.asg != nil && n.provider != nil && n.provider.service != nil && n.config != nil
+//@ spec desired(n *NodeGroup) int = (n.asg.DesiredCapacity == nil ? 0 : deref(n.asg.DesiredCapacity))
+//@ spec amax(n *NodeGroup) int = (n.asg.MaxSize == nil ? 0 : deref(n.asg.MaxSize))
+//@ spec amin(n *NodeGroup) int = (n.asg.MinSize == nil ? 0 : deref(n.asg.MinSize))
+//@ func (*NodeGroup).TargetSize(n) (r)
+//@   requires n != nil && n.asg != nil
+//@   ensures r == desired(n)
+//@ func (*NodeGroup).MaxSize(n) (r)
+//@   requires n != nil && n.asg != nil
+//@   ensures r == amax(n)
+//@ func (*NodeGroup).MinSize(n) (r)
+//@   requires n != nil && n.asg != nil
+//@   ensures r == amin(n)
+//@ func (*NodeGroup).Size(n) (r)
+//@   requires n != nil && n.asg != nil
+//@   ensures r == len(n.asg.Instances)
+//@ func (*NodeGroup).canScaleInOneShot(n) (r)
+//@   requires n != nil && n.config != nil
+//@   ensures r <==> n.config.AWSConfig.LaunchTemplateID != ""
+
+// C17 (plain ASG mode): one SetDesiredCapacity for exactly the size given.
+//@ func (*NodeGroup).setASGDesiredSize(n, newSize) (err)
+//@   requires asgOK(n)
+//@   modifies Jlen, Jkind, Jname, Jnum, Jok
+//@   ensures Jlen == old(Jlen) + 1 && ajprefix(old(Jlen))
+//@   ensures [C17] Jkind[old(Jlen)] == A_SETDESIRED && Jname[old(Jlen)] == n.id && Jnum[old(Jlen)] == newSize && Jok[old(Jlen)] == (err == nil)
+
+//@ spec ajprefix(m int) bool = forall k :: k < m ==> Jkind[k] == old(Jkind)[k] && Jname[k] == old(Jname)[k] && Jok[k] == old(Jok)[k] && Jnum[k] == old(Jnum)[k]
+
+// ---------------------------------------------------------------- aws.go: IncreaseSize (C17)
+
+// C17: a non-positive delta, or one that would exceed the ASG maximum, is rejected without any AWS write;
+// in plain ASG mode the only write is SetDesiredCapacity(current + delta), so capacity is never lowered.
+//@ func (*NodeGroup).IncreaseSize(n, delta) (err)
+//@   requires asgOK(n) && n.provider.ec2Service != nil
+//@   modifies Jlen, Jkind, Jname, Jnum, Jok, ATTs, TERMs, n.terminateInstancesTries
+//@   ensures Jlen >= old(Jlen) && ajprefix(old(Jlen))
+//@   ensures [C17,C04] delta <= 0 || desired(n) + delta > amax(n) ==> err != nil && Jlen == old(Jlen)
+//@   ensures [C17] n.config.AWSConfig.LaunchTemplateID == "" && delta > 0 && desired(n) + delta <= amax(n) ==> Jlen == old(Jlen) + 1 && Jkind[old(Jlen)] == A_SETDESIRED && Jname[old(Jlen)] == n.id && Jnum[old(Jlen)] == desired(n) + delta && Jnum[old(Jlen)] > desired(n) && Jok[old(Jlen)] == (err == nil)
+//@   ensures [C17] forall k :: old(Jlen) <= k && k < Jlen && Jkind[k] == A_SETDESIRED ==> Jnum[k] == desired(n) + delta
+
+// ---------------------------------------------------------------- aws.go: DeleteNodes (C19)
+
+// pidOf(az, id): the provider ID string "aws:///az/id" (fmt.Sprintf is not modelled; assumed injective formatting)
+//@ spec pidOf(az string, id string) string
+//@ assume func instanceToProviderID(instance) (r)
+//@   pure
+//@   requires instance != nil && instance.AvailabilityZone != nil && instance.InstanceId != nil
+//@   ensures r == pidOf(deref(instance.AvailabilityZone), deref(instance.InstanceId))
+// the ASG's instance records are well-formed (SDK assumption: AZ and id are always present)
+//@ spec instOK(n *NodeGroup) bool = forall i :: 0 <= i && i < len(n.asg.Instances) ==> n.asg.Instances[i] != nil && n.asg.Instances[i].AvailabilityZone != nil && n.asg.Instances[i].InstanceId != nil && allocated(n.asg.Instances[i].AvailabilityZone) && allocated(n.asg.Instances[i].InstanceId)
+//@ spec instPid(n *NodeGroup, i int) string = pidOf(deref(n.asg.Instances[i].AvailabilityZone), deref(n.asg.Instances[i].InstanceId))
+// member(n, pid): some instance of the ASG has this provider ID
+//@ spec member(n *NodeGroup, pid string) bool = exists i :: 0 <= i && i < len(n.asg.Instances) && instPid(n, i) == pid
+// firstAt(n, pid, i): instance i is the first one with this provider ID
+//@ spec firstAt(n *NodeGroup, pid string, i int) bool = 0 <= i && i < len(n.asg.Instances) && instPid(n, i) == pid && (forall j :: 0 <= j && j < i ==> instPid(n, j) != pid)
+
+//@ func (*NodeGroup).Nodes(n) (r)
+//@   requires n != nil && n.asg != nil && instOK(n)
+//@   ensures len(r) == len(n.asg.Instances) && (forall i :: 0 <= i && i < len(r) ==> r[i] == instPid(n, i))
+//@ loop #0
+//@   modifies elems(result)
+//@   invariant len(result) == #i && base(result) == entry(base(result)) && off(result) == 0 && cap(result) == len(n.asg.Instances)
+//@   invariant forall i :: 0 <= i && i < #i ==> result[i] == instPid(n, i)
+
+//@ func (*NodeGroup).Belongs(n, node) (r)
+//@   requires n != nil && n.asg != nil && instOK(n) && node != nil
+//@   ensures r <==> member(n, node.Spec.ProviderID)
+//@ loop #0
+//@   invariant forall j :: 0 <= j && j < #i ==> instPid(n, j) != node.Spec.ProviderID
+
+// C19: refuses the whole request (no AWS write) when it would go below the ASG minimum; otherwise terminates,
+// with capacity decrement, the instance backing each node in order, and stops at the first node that is not
+// a member (not-in-group error) or the first failing call.
+//@ func (*NodeGroup).DeleteNodes(n, nodes) (err)
+//@   requires asgOK(n) && instOK(n) && (forall i :: 0 <= i && i < len(nodes) ==> nodes[i] != nil)
+//@   modifies Jlen, Jkind, Jname, Jnum, Jok
+//@   ensures Jlen >= old(Jlen) && ajprefix(old(Jlen))
+//@   ensures [C19] desired(n) <= amin(n) || desired(n) - len(nodes) < amin(n) ==> err != nil && Jlen == old(Jlen)
+//@   ensures [C19] Jlen - old(Jlen) <= len(nodes) && (Jlen > old(Jlen) ==> Jlen - old(Jlen) <= desired(n) - amin(n))
+//@   ensures [C19] forall k :: old(Jlen) <= k && k < Jlen ==> Jkind[k] == A_TERMASG && Jnum[k] == 1 && (exists i :: firstAt(n, nodes[k - old(Jlen)].Spec.ProviderID, i) && Jname[k] == deref(n.asg.Instances[i].InstanceId))
+//@   ensures [C19] err == nil ==> Jlen == old(Jlen) + len(nodes) && (forall k :: old(Jlen) <= k && k < Jlen ==> Jok[k])
+//@   ensures [C19] err != nil && Jlen - old(Jlen) < len(nodes) && !(desired(n) <= amin(n) || desired(n) - len(nodes) < amin(n)) && (Jlen == old(Jlen) || Jok[Jlen - 1]) ==> typeis(err, "*cloudprovider.NodeNotInNodeGroup") && !member(n, nodes[Jlen - old(Jlen)].Spec.ProviderID)
+//@ loop #0
+//@   invariant Jlen == old(Jlen) + #i && ajprefix(old(Jlen))
+//@   invariant forall k :: old(Jlen) <= k && k < Jlen ==> Jkind[k] == A_TERMASG && Jnum[k] == 1 && Jok[k] && (exists i :: firstAt(n, nodes[k - old(Jlen)].Spec.ProviderID, i) && Jname[k] == deref(n.asg.Instances[i].InstanceId))
+//@ loop #1
+//@   invariant forall j :: 0 <= j && j < #i ==> instPid(n, j) != node.Spec.ProviderID
+//@ ghost ATTs [string]bool
+//@ ghost TERMs [string]bool
+
+// ---------------------------------------------------------------- fleet (one-shot) scale-up: C17, C18
+
+//@ ghost Jaux [int]int
+// A_FLEET: Jnum = TotalTargetCapacity, Jname = DefaultTargetCapacityType, Jaux = MinTargetCapacity of the options block matching that type (-1 if absent)
+//@ spec fleetMin(input *ec2.CreateFleetInput) int = (deref(input.TargetCapacitySpecification.DefaultTargetCapacityType) == "on-demand" ? (input.OnDemandOptions == nil || input.OnDemandOptions.MinTargetCapacity == nil ? 0 - 1 : deref(input.OnDemandOptions.MinTargetCapacity)) : (input.SpotOptions == nil || input.SpotOptions.MinTargetCapacity == nil ? 0 - 1 : deref(input.SpotOptions.MinTargetCapacity)))
+//@ iface github.com/aws/aws-sdk-go/service/ec2/ec2iface.EC2API.CreateFleet(api, input) (out, err)
+//@   requires input != nil && input.Type != nil && input.TargetCapacitySpecification != nil && input.TargetCapacitySpecification.TotalTargetCapacity != nil && input.TargetCapacitySpecification.DefaultTargetCapacityType != nil
+//@   modifies Jlen, Jkind, Jname, Jnum, Jok, Jaux
+//@   ensures Jlen == old(Jlen) + 1 && Jkind == old(Jkind)[old(Jlen) := A_FLEET] && Jname == old(Jname)[old(Jlen) := deref(input.TargetCapacitySpecification.DefaultTargetCapacityType)] && Jnum == old(Jnum)[old(Jlen) := deref(input.TargetCapacitySpecification.TotalTargetCapacity)] && Jok == old(Jok)[old(Jlen) := err == nil] && Jaux == old(Jaux)[old(Jlen) := fleetMin(input)]
+//@   ensures err == nil ==> out != nil && (forall i :: 0 <= i && i < len(out.Instances) ==> out.Instances[i] != nil) && (forall e :: 0 <= e && e < len(out.Errors) ==> out.Errors[e] != nil && out.Errors[e].ErrorMessage != nil)
+
+// AttachInstances: at most 20 ids per call (documented API limit). On success the ids are attached.
+//@ iface github.com/aws/aws-sdk-go/service/autoscaling/autoscalingiface.AutoScalingAPI.AttachInstances(api, input) (out, err)
+//@   requires input != nil && input.AutoScalingGroupName != nil
+//@   requires [C17] len(input.InstanceIds) <= 20
+//@   modifies Jlen, Jkind, Jname, Jnum, Jok, ATTs
+//@   ensures Jlen == old(Jlen) + 1 && Jkind == old(Jkind)[old(Jlen) := A_ATTACH] && Jname == old(Jname)[old(Jlen) := deref(input.AutoScalingGroupName)] && Jnum == old(Jnum)[old(Jlen) := len(input.InstanceIds)] && Jok == old(Jok)[old(Jlen) := err == nil]
+//@   ensures err != nil ==> ATTs == old(ATTs)
+//@   ensures err == nil ==> (forall i :: 0 <= i && i < len(input.InstanceIds) ==> ATTs[deref(input.InstanceIds[i])])
+//@   ensures err == nil ==> (forall s string :: ATTs[s] && !old(ATTs)[s] ==> (exists i :: 0 <= i && i < len(input.InstanceIds) && deref(input.InstanceIds[i]) == s))
+//@   ensures forall s string :: old(ATTs)[s] ==> ATTs[s]
+
+// TerminateInstances: at most 1000 ids per call (documented API limit). The ids count as submitted whatever the answer.
+//@ iface github.com/aws/aws-sdk-go/service/ec2/ec2iface.EC2API.TerminateInstances(api, input) (out, err)
+//@   requires input != nil
+//@   requires [C18] len(input.InstanceIds) <= 1000
+//@   modifies Jlen, Jkind, Jnum, Jok, TERMs
+//@   ensures Jlen == old(Jlen) + 1 && Jkind == old(Jkind)[old(Jlen) := A_TERM] && Jnum == old(Jnum)[old(Jlen) := len(input.InstanceIds)] && Jok == old(Jok)[old(Jlen) := err == nil]
+//@   ensures forall i :: 0 <= i && i < len(input.InstanceIds) ==> input.InstanceIds[i] != nil ==> TERMs[deref(input.InstanceIds[i])]
+//@   ensures forall s string :: TERMs[s] && !old(TERMs)[s] ==> (exists i :: 0 <= i && i < len(input.InstanceIds) && input.InstanceIds[i] != nil && deref(input.InstanceIds[i]) == s)
+//@   ensures forall s string :: old(TERMs)[s] ==> TERMs[s]
+
+//@ assume func github.com/aws/aws-sdk-go/aws.StringSlice(src) (dst)
+//@   ensures len(dst) == len(src) && (base(dst) == nil || fresh(base(dst))) && (forall i :: 0 <= i && i < len(src) ==> dst[i] != nil && fresh(dst[i]) && deref(dst[i]) == src[i])
+
+//@ func minInt(x, y) (r)
+//@   ensures r == min(x, y)
+
+// idsOK(s): non-nil, pre-existing id pointers
+//@ spec idsOK(s []*string) bool = forall i :: 0 <= i && i < len(s) ==> s[i] != nil && allocated(s[i])
+//@ spec inIds(x string, s []*string) bool = exists i :: 0 <= i && i < len(s) && deref(s[i]) == x
+
+// C18: every instance given is submitted for termination, in calls of at most 1000 ids.
+//@ func terminateOrphanedInstances(n, instances)
+//@   requires n != nil && n.provider != nil && n.provider.ec2Service != nil && idsOK(instances)
+//@   modifies Jlen, Jkind, Jnum, Jok, TERMs, n.terminateInstancesTries
+//@   ensures Jlen >= old(Jlen) && (forall k :: k < old(Jlen) ==> Jkind[k] == old(Jkind)[k] && Jnum[k] == old(Jnum)[k] && Jok[k] == old(Jok)[k])
+//@   ensures [C18] forall i :: 0 <= i && i < len(instances) ==> TERMs[deref(instances[i])]
+//@   ensures [C18] forall s string :: TERMs[s] && !old(TERMs)[s] ==> inIds(s, instances)
+//@   ensures forall s string :: old(TERMs)[s] ==> TERMs[s]
+//@   ensures forall k :: old(Jlen) <= k && k < Jlen ==> Jkind[k] == A_TERM
+//@ loop #0
+//@   modifies n.terminateInstancesTries
+//@   decreases numInstances - i
+//@   invariant 0 <= i && numInstances == len(instances) && Jlen >= old(Jlen) && (forall k :: k < old(Jlen) ==> Jkind[k] == old(Jkind)[k] && Jnum[k] == old(Jnum)[k] && Jok[k] == old(Jok)[k])
+//@   invariant forall j :: 0 <= j && j < i && j < len(instances) ==> TERMs[deref(instances[j])]
+//@   invariant forall s string :: TERMs[s] && !old(TERMs)[s] ==> inIds(s, instances)
+//@   invariant forall s string :: old(TERMs)[s] ==> TERMs[s]
+//@   invariant forall k :: old(Jlen) <= k && k < Jlen ==> Jkind[k] == A_TERM
+//@   invariant base(instanceIds) == nil || birth(base(instanceIds)) >= entry(now)
+//@ loop #1
+//@   invariant len(instanceIds) == entry(len(instanceIds)) + #i && (base(instanceIds) == nil || birth(base(instanceIds)) >= entry(now) || base(instanceIds) == entry(base(instanceIds)))
+//@   invariant forall j :: 0 <= j && j < #i ==> instanceIds[entry(len(instanceIds)) + j] == deref(batch[j])
